@@ -23,10 +23,10 @@ def plans(tier):
         return [
             (3, 1, "g", "e3", [("gaussian", None), ("bosonic", None)]),
             (3, 2, "q", "e3", [("gaussian", None), ("bosonic", None)]),
-            (2, 1, "q", "e2", [("fockmixed", 10), ("fock", 12)]),
-            (3, 1, "q", "p3", [("fock", 9), ("fockmixed", 6)]),
-            (4, 1, "q", "x4", [("gaussian", None), ("bosonic", None), ("fock", 7)]),
-            (3, 1, "q", "x3", [("fockmixed", 8)]),
+            (2, 1, "q", "e2", [("fockmixed", 9), ("fock", 11)]),
+            (3, 1, "q", "p3", [("fock", 8), ("fockmixed", 5)]),
+            (4, 1, "q", "x4", [("gaussian", None), ("bosonic", None), ("fock", 6)]),
+            (3, 1, "q", "x3", [("fockmixed", 7)]),
         ]
     return [
         (3, 2, "g", "e3", [("gaussian", None), ("bosonic", None)]),
@@ -130,7 +130,7 @@ def _cat_run(arg):
 def cat_programs(chk, judge):
     """generate cat-state programs, run them on the bosonic and Fock simulators, call judge(cfg, item, p, oracle, result)"""
     depth = 1 if chk.tier == "quick" else 2
-    for (an, ad, cut) in ((1, 2, 14), (1, 1, 22)) if chk.tier != "quick" else ((1, 2, 14),):
+    for (an, ad, cut) in ((1, 2, 14), (1, 1, 22)) if chk.tier != "quick" else ((1, 2, 12),):
         r = chk.tlc("MC_Cat", constants={"Depth": depth, "ANum": an, "ADen": ad, "EMIT": True}, invariants=["CovPhysical", "Paired", "EmitInv"])
         items = r.json
         for cfg, cutoff in (("bosonic", None), ("fock", cut)):
